@@ -307,6 +307,43 @@ impl Monitors {
                 }
             }
         }
+        // R7: a final acknowledgement that belongs to an unresolved operation (id it was sent with on
+        // this connection, matching packet type, packet completely written before this step) and that
+        // the engine processed without error must resolve that operation in this very step. Judged
+        // only when the whole delivery returned Ok (otherwise only a prefix was processed) and the
+        // reference decoder could frame the server's stream.
+        if matches!(rec.result, CallResult::Ok) && !self.blind && !self.inbound_unframed {
+            for (c, ii) in &delta.new_inbound {
+                let ip = &world.conns[*c].inbound[*ii];
+                let (kind, pid, reason): (&'static str, u16, u8) = match &ip.packet {
+                    rf::Packet::Puback(a) => ("PUBACK", a.packet_id, a.reason),
+                    rf::Packet::Pubrec(a) => ("PUBREC", a.packet_id, a.reason),
+                    rf::Packet::Pubcomp(a) => ("PUBCOMP", a.packet_id, a.reason),
+                    rf::Packet::Suback(a) => ("SUBACK", a.packet_id, 0),
+                    rf::Packet::Unsuback(a) => ("UNSUBACK", a.packet_id, 0),
+                    _ => continue,
+                };
+                let oi = match world.conn_ids.get(&(*c, pid)) { Some(oi) => *oi, None => continue };
+                let op = &world.ops[oi];
+                if op.resolved_before(rec.index) { continue; }
+                let sent = |k: WireKind| op.appearances.iter().any(|a| a.conn == *c && a.packet_id == pid && a.kind == k && a.written_step.map(|w| w < rec.index).unwrap_or(false));
+                let is_final = match (kind, op.kind) {
+                    ("PUBACK", OpKind::Pub1) => sent(WireKind::Publish),
+                    ("PUBREC", OpKind::Pub2) => reason >= 0x80 && sent(WireKind::Publish) && !sent(WireKind::Pubrel) && !op.pubrec_received && !op.pubrec_uncertain,
+                    ("PUBCOMP", OpKind::Pub2) => sent(WireKind::Pubrel),
+                    ("SUBACK", OpKind::Sub) => sent(WireKind::Subscribe),
+                    ("UNSUBACK", OpKind::Unsub) => sent(WireKind::Unsubscribe),
+                    _ => false,
+                };
+                if !is_final { continue; }
+                self.count("c01.final_acks_delivered");
+                if reason >= 0x80 { self.count("c01.failing_final_acks_delivered"); }
+                if kind == "PUBREC" { self.count("c01.failing_pubrecs_delivered"); }
+                if !op.completions.iter().any(|(s, _, _)| *s == rec.index) {
+                    self.viol("C01", "C01.R7-own-ack-did-not-resolve", sig(&[("kind", op.kind.name().into()), ("ack", kind.into()), ("failing", (reason >= 0x80).to_string())]), rec.index, format!("op {} (id {}) was sent {} reason {:#x} and the engine accepted it, but the operation was not resolved by it", op.tag, pid, kind, reason));
+                }
+            }
+        }
         if let (Event::Reset, Some(s)) = (&rec.event, ctx.post_snapshot) {
             self.count("c01.resets_checked");
             let mut left = Vec::new();
